@@ -32,30 +32,71 @@ def strip_cast(t):
     return t
 
 
+def special_paths(rep, f, special, pt, mainmat, extra_of):
+    """returns under further conditions (fast paths).  The ordering must still be random: one that contains no draw of the seeded
+    generator is a fixed ordering on that path; a path restricted only by comparisons of p with constants (degenerate sizes) and
+    matrices that differ in normal form are not decided here."""
+    for r, path, v in special:
+        ex = extra_of(path)
+        cond = ", ".join(sorted(pred_fmt(x) for x in ex))[:100]
+        only_p = all(set(y for y in walk(x) if isinstance(y, tuple) and y and y[0] == "param") <= {Pp} for x in ex)
+        mat, o = (v[1][0], v[1][1]) if v[0] == "tuple" and len(v[1]) == 2 else (v, None)
+        if o is not None:
+            if o == ("ext", "numpy.argsort", (pt,), ()):
+                rep.ok("PERM.ordering", fwhere(f, r.node), "fast path under [%s] still returns argsort(permutation)" % cond)
+            elif not any(isinstance(y, tuple) and y and y[0] == "method" and y[1] == RNG for y in walk(o)) and not only_p:
+                rep.bad("PERM.ordering", fwhere(f, r.node), "under [%s] the returned ordering is %s: a fixed ordering, not a random one (no draw of the seeded generator reaches it)" % (
+                    cond, fmt(o)[:60]))
+            else:
+                rep.unk("PERM.ordering", fwhere(f, r.node), "fast path under [%s] returns the ordering %s: not decided" % (cond, fmt(o)[:60]))
+        try:
+            same = MN.key(MNF().nf(mat)) == MN.key(MNF().nf(mainmat))
+        except Inconclusive:
+            same = mat == mainmat
+        if same:
+            rep.ok("PERM.both-paths", fwhere(f, r.node), "fast path under [%s] hands out the same matrix" % cond)
+        else:
+            rep.unk("PERM.both-paths", fwhere(f, r.node), "fast path under [%s] returns %s: equality with the general path under that condition is not decided" % (cond, fmt(mat)[:60]))
+
+
 def analyse(rep, prog, name, full):
     f = need(prog, GE + name)
     S = Sym(prog, inline=inline_helpers(prog, "sempler.generators"))
     run_function(S, f)
-    rets = S.select("return", qname=f.qname)
-    mats = []
-    ords = []
-    for r in rets:
+    rets = []
+    for r in S.select("return", qname=f.qname):
         v = r.value
+        if v[0] == "phi":            # `return (W, ordering) if return_ordering else W`
+            rets.append((r, tuple(r.path) + ((v[1], True),), v[2]))
+            rets.append((r, tuple(r.path) + ((v[1], False),), v[3]))
+        else:
+            rets.append((r, tuple(r.path), v))
+    RO = ("param", "return_ordering")
+
+    def extra_of(path):
+        return frozenset(x for x in conj(path) if not (x[0] == "atom" and x[1] == RO))
+    # the general path is the group of returns reached last (fall-through); earlier groups under further conditions are fast paths
+    last = max(rets, key=lambda x: x[0].order) if rets else None
+    main = [x for x in rets if extra_of(x[1]) == extra_of(last[1])]
+    special = [x for x in rets if extra_of(x[1]) != extra_of(last[1])]
+    mats, ords = [], []
+    for r, path, v in main:
         if v[0] == "tuple" and len(v[1]) == 2:
             mats.append(v[1][0])
-            ords.append((v[1][1], r))
+            ords.append((v[1][1], r, path))
         else:
             mats.append(v)
-    if len(rets) != 2 or len(ords) != 1:
-        raise Inconclusive("%s: expected one return with and one without the ordering" % name, f.node)
+    if len(main) != 2 or len(ords) != 1:
+        raise Inconclusive("%s: expected one unconditional return with and one without the ordering" % name, f.node)
     try:
         same = MN.key(MNF().nf(mats[0])) == MN.key(MNF().nf(mats[1]))
     except Inconclusive:
         same = mats[0] == mats[1]
     rep.check("PERM.both-paths", same, fwhere(f), "both return paths hand out the same matrix", "the matrix differs between return_ordering=True and False")
-    withord = [r for r in rets if r.value[0] == "tuple"][0]
-    pc = conj(withord.path)
-    rep.check("PERM.switch", pc == frozenset([("atom", ("param", "return_ordering"), True)]), fwhere(f, withord.node), "ordering returned iff return_ordering",
+    withord = ords[0]
+    pc = conj(withord[2])
+    pc = pc - extra_of(withord[2])
+    rep.check("PERM.switch", pc == frozenset([("atom", RO, True)]), fwhere(f, withord[1].node), "ordering returned iff return_ordering",
               "ordering is returned under %s" % [pred_fmt(x) for x in pc])
     # permutation
     perm = None
@@ -67,6 +108,7 @@ def analyse(rep, prog, name, full):
         return
     rep.ok("PERM.random", fwhere(f, perm.node), "permutation = default_rng(random_state).permutation(p): random, seeded, a bijection of the p nodes")
     pt = perm.result
+    special_paths(rep, f, special, pt, mats[0], extra_of)
     M = MNF()
     try:
         got = M.nf(mats[0])
@@ -75,7 +117,7 @@ def analyse(rep, prog, name, full):
         return
     blocks = [fct for m in got for fct in m if fct[0] == "B"]
     ok = len(got) == 1 and len(blocks) == 1 and blocks[0][2] == pt and blocks[0][3] == pt and not blocks[0][4]
-    rep.check("PERM.same-axes", ok, fwhere(f, rets[0].node), "result = W[permutation, :][:, permutation]: the same relabelling on both axes",
+    rep.check("PERM.same-axes", ok, fwhere(f, main[0][0].node), "result = W[permutation, :][:, permutation]: the same relabelling on both axes",
               "rows and columns are not re-indexed with the same permutation: %s" % MN.show(got))
     if not ok:
         return
